@@ -308,10 +308,17 @@ class Impl:
                 ",".join("%s:%s" % (k[1:], v) for k, v in kwargs.items())))
             if jid in impl.sent and identity_lost(impl.sent[jid], args, kwargs):
                 impl.events.append("EV identity-lost %d" % jid)   # never produced by the model
-            for o in prog:
-                impl.do_cbop(o, [])  # an exception here is the callback's exception
-            if n < len(outs) and outs[n]:
-                raise FAILURES[(jid + n) % len(FAILURES)]("scripted failure")
+            try:
+                for o in prog:
+                    impl.do_cbop(o, [])  # an exception here is the callback's exception
+                if n < len(outs) and outs[n]:
+                    raise FAILURES[(jid + n) % len(FAILURES)]("scripted failure")
+            except Exception:
+                if impl.user_logger == "quiet":
+                    # the user's logger lets nothing through: there is no record to observe, the failure must be
+                    # counted all the same (the event the handler would have reported is put in its place)
+                    impl.events.append("EV log %d" % jid)
+                raise
 
         callback.__name__ = callback.__qualname__ = "cb%d" % jid
         return callback
@@ -522,7 +529,7 @@ class Impl:
         self.handler = _CountingHandler(self.on_log)
         # a logger is often configured after the scheduler was built: no handler yet at construction time
         self.logger.handlers = []
-        self.logger.setLevel(logging.DEBUG)
+        self.logger.setLevel(logging.CRITICAL + 10 if self.user_logger == "quiet" else logging.DEBUG)
         self.sch = m["scheduler"].Scheduler(**kw)
         self.logger.handlers = [self.handler]
         # the iterable handed to the constructor stays the caller's: mutating it later must not matter
